@@ -21,9 +21,10 @@ LEVEL = 'exploration'
 TECHNIQUE = ('property-based testing (Hypothesis): model + build-file-derived '
              'oracle on the member list of the archive produced by the real '
              'dist target, and round trip (unpack, configure, compare)')
-RULE = ('Scripts composed of 17 optional features: sources, header_directory '
+RULE = ('Scripts composed of 18 optional features: sources, header_directory '
         'with include pattern, header_file, generic_file, man_page, '
-        'extra_dist(files, dirs), find_files with extra / filter_by_platform / '
+        'extra_dist(files, dirs), find_files with extra / filter_by_platform '
+        '(platform suffixes and per-platform directories) / '
         'cache=False, dist=False markers (source_file, generic_file, '
         'find_files), submodules (build.bfg and options.bfg), generated '
         'sources, command(files=), copy_file, extra_deps.  Non-trivial: >= 4 '
